@@ -19,6 +19,9 @@ for d in sorted(glob.glob(os.path.join(ROOT, "seeded", "*"))):
         res = "undecided (exit 2): " + "; ".join(n[:90] for n in cb.get("notes", [])[:2])
     else:
         res = "MISSED (exit 0)"
+    fm = m.get("first_measurement")
+    if fm is not None and not fm.get("caught"):
+        res += " - first measurement (before strengthening): exit %s" % fm.get("exit")
     note = m.get("detection_note")
     if note:
         res += " - " + note
